@@ -12,6 +12,8 @@ use std::ptr::NonNull;
 use vstd::slice::SliceIndexSpec;
 use std::slice::SliceIndex;
 use std::hash::{Hash, Hasher};
+use std::slice::Iter;
+use vstd::std_specs::iter::IteratorSpec;
 
 //@@UTIL_MACROS@@
 
